@@ -401,6 +401,58 @@ func runC02Spec(r *core.Run) {
 	s.Done()
 }
 
+// runC02Emphasis: delimiter-run documents (letters, blanks, '.', '*', '_' only) against an independent implementation of
+// §6.2 in its definitional form (c02emph.go). The meaning of such a document is fixed by the seventeen rules of the
+// section; the reference is validated on every official example of the section that stays inside this alphabet.
+func runC02Emphasis(r *core.Run) {
+	validated := 0
+	for _, e := range Spec(r) {
+		md := strings.TrimSuffix(e.Markdown, "\n")
+		if e.Section != "Emphasis and strong emphasis" || strings.Contains(md, "\n") || !emphPlain(md) || !emphParagraphSafe(md) {
+			continue
+		}
+		validated++
+		if want := "<p>" + emphRefHTML(md) + "</p>\n"; want != e.HTML {
+			fmt.Printf("C02: the emphasis reference disagrees with official example %d (%q): %q vs %q (the check is broken, no verdict)\n", e.Example, md, want, e.HTML)
+			os2Exit(r)
+		}
+	}
+	r.Assume = append(r.Assume, fmt.Sprintf("emphasis reference reproduces the %d official examples of the section that use only letters, blanks, '.', '*' and '_'", validated))
+	chars := []string{"*", "_", "a", " ", "."}
+	n := core.Pick(r, 9, 11)
+	cfg := core.MustCfg(c02Cfg)
+	wordsSub(r, "emphasis-runs", fmt.Sprintf("as the content of an ATX heading and, where the line is a paragraph, alone: output must equal <h1>/<p> around the HTML an independent definitional implementation of CommonMark 6.2 prescribes (validated on %d official examples); words with a leading or trailing blank are skipped; distinct = output digest", validated),
+		chars, n, func(s *core.Sub, w int) func([]byte) uint64 {
+			cv := core.NewConv(cfg)
+			var doc []byte
+			return func(word []byte) uint64 {
+				if word[0] == ' ' || word[len(word)-1] == ' ' {
+					return 0
+				}
+				ws := string(word)
+				ref := emphRefHTML(ws)
+				doc = append(append(doc[:0], "# "...), word...)
+				got, ok := mustConvert(s, cv, doc)
+				s.Evals.Add(1)
+				if ok && string(got) != "<h1>"+ref+"</h1>\n" {
+					s.Violate("differs-from-spec:emphasis-runs:heading", cfg.String(), doc, nil, "delimiter runs are paired differently from what CommonMark 6.2 prescribes", "<h1>"+ref+"</h1>\n", string(got))
+				}
+				h := core.Hash(got)
+				if emphParagraphSafe(ws) {
+					got, ok := mustConvert(s, cv, word)
+					s.Evals.Add(1)
+					if ok && string(got) != "<p>"+ref+"</p>\n" {
+						s.Violate("differs-from-spec:emphasis-runs:paragraph", cfg.String(), word, nil, "delimiter runs are paired differently from what CommonMark 6.2 prescribes", "<p>"+ref+"</p>\n", string(got))
+					}
+				}
+				if strings.Contains(ref, "<") {
+					return h
+				}
+				return 0
+			}
+		})
+}
+
 func runC02(r *core.Run) {
 	if bad, n := c02Validate(r); len(bad) > 0 {
 		fmt.Println("C02: the reference renderer disagrees with official examples (the check is broken, no verdict):")
@@ -412,6 +464,7 @@ func runC02(r *core.Run) {
 		r.Assume = append(r.Assume, fmt.Sprintf("reference renderer reproduces %d hand-encoded official examples", n))
 	}
 	runC02Spec(r)
+	runC02Emphasis(r)
 	cfg := core.MustCfg(c02Cfg)
 	thorough := !r.Quick()
 
